@@ -440,6 +440,7 @@ func Run(r *evid.Run) {
 	mc.Desc = fsmx.CmdStr(mc.txn(preds, ops))
 	r.Sample(mc)
 	runVisibility(r)
+	runHugeCall(r)
 	// transactions over pending writes of the same apply call, for every pair of key lengths 1..20
 	// (the sweep lives in C01: plain puts, then a transaction with a range predicate and reads, counted
 	// deletes ... in ONE call); only the transaction results are C02's
@@ -472,6 +473,11 @@ func Replay(raw json.RawMessage) (string, bool) {
 		runVisibilityOnly(rr, probe.Variant)
 		sigs := rr.ViolationSignatures()
 		return "re-explored variant " + probe.Variant + ": " + strings.Join(sigs, "; ") + "\n", len(sigs) == 0
+	case "huge-call":
+		rr := evid.NewRun("C02", "exploration")
+		runHugeCall(rr)
+		sigs := rr.ViolationSignatures()
+		return strings.Join(sigs, "; ") + "\n", len(sigs) == 0
 	case "lengths":
 		sigs, details := c01pkg.RunLengthsExt(c01pkg.Case{Kind: "lengths", Lo: probe.L1, Hi: probe.L2, Flags: probe.Order})
 		var sb strings.Builder
@@ -502,6 +508,58 @@ func Replay(raw json.RawMessage) (string, bool) {
 // scheduling point before every statement of Update, handleTxn, handleTxnOps, EnsureIndexed, Commit
 // and of the read path (build overlay); all interleavings up to a preemption bound. Every read must
 // equal the state at an entry boundary of the call (in log order) - never part of a transaction.
+
+// runHugeCall: an apply call that writes more than 16 MiB before and inside a transaction, and whose
+// LAST entry is malformed, so that the call fails as a whole (dragonboat would stop the replica). What
+// a reader - or a restart - finds afterwards must not contain part of the transaction: whatever the
+// implementation does to bound the size of its write batch, a transaction's effects go together.
+func runHugeCall(r *evid.Run) {
+	for _, plain := range []int{6, 7, 8} { // 12, 14, 16 MiB of plain puts before the transaction
+		env := fsmx.NewEnv()
+		inst, _, err := env.Open("t", 10001, fsm.RecoveryTypeSnapshot)
+		if err != nil {
+			r.Inconcl.Add(1)
+			return
+		}
+		v2 := strings.Repeat("H", 2<<20)
+		var ents []sm.Entry
+		idx := uint64(0)
+		for i := 0; i < plain; i++ {
+			idx++
+			ents = append(ents, fsmx.Entry(idx, Put(fmt.Sprintf("huge-%d", i), v2, false)))
+		}
+		idx++
+		txnIdx := idx
+		ents = append(ents, fsmx.Entry(idx, Txn(nil, Ops(OpPut("txn-a", v2, false), OpPut("txn-b", v2, false), OpPut("txn-c", "c", false)), nil)))
+		ents = append(ents, sm.Entry{Index: idx + 1, Cmd: []byte{0xff, 0xff, 0xff}}) // not a command
+		_, uerr := inst.F.Update(ents)
+		kvs, rerr := inst.All()
+		li, _ := inst.LocalIndex()
+		inst.Close()
+		if rerr != nil {
+			r.Inconcl.Add(1)
+			continue
+		}
+		seen := map[string]bool{}
+		for _, kv := range kvs {
+			seen[string(kv.Key)] = true
+		}
+		r.Outcome(fmt.Sprint("huge-call", plain, uerr != nil, len(kvs), li), true)
+		n := 0
+		for _, k := range []string{"txn-a", "txn-b", "txn-c"} {
+			if seen[k] {
+				n++
+			}
+		}
+		cs := map[string]any{"kind": "huge-call", "plain_puts": plain}
+		if n != 0 && n != 3 {
+			r.Violate("huge-call/part-of-a-transaction-visible", fmt.Sprintf("after an apply call of %d x 2MiB puts + a transaction of three puts whose last entry is malformed (Update error: %v) the table holds %d of the 3 pairs of the transaction (%d pairs in all, applied index %d)", plain, uerr, n, len(kvs), li), cs)
+		}
+		if li >= txnIdx && n != 3 {
+			r.Violate("huge-call/transaction-recorded-as-applied-without-its-effects", fmt.Sprintf("%d x 2MiB puts + transaction at index %d: applied index %d but %d of its 3 pairs visible", plain, txnIdx, li, n), cs)
+		}
+	}
+}
 
 func runVisibility(r *evid.Run) { runVisibilityOnly(r, "") }
 
